@@ -20,7 +20,7 @@ Print Assumptions C06_Inv_chain.
 (* a Store happens only for a block that went through verifierTask, extends the head, with the
    stream context not cancelled and no revertTask running *)
 Theorem C06_store_needs_verified : forall s b s', reachable s -> step s (StoreOk b) = Some s' ->
-  memb b (pend s) = true /\ okb b = true /\ In b (hist s) /\
+  memb b (pend s) = true /\ okb b = true /\ stb b = true /\ In b (hist s) /\
   extendsb (loc s) b = true /\ loc s' = b :: loc s /\ canc s = false /\ rv s = RIdle.
 Proof. exact store_needs_verified_lemma. Qed.
 Print Assumptions C06_store_needs_verified.
@@ -33,9 +33,33 @@ Print Assumptions C06_pend_only_by_verify.
 
 Theorem C06_infl_only_by_fetch : forall s e s' b, step s e = Some s' -> In b (infl s') ->
   In b (infl s) \/ (exists h, (e = FetchOk h /\ at_num (src s) h = Some b) \/
-                              (e = FetchCorrupt h /\ okb b = false)).
+                              (e = FetchCorrupt h /\ okb b = false) \/
+                              (e = FetchUnstorable h /\ stb b = false)).
 Proof. exact infl_only_by_fetch_lemma. Qed.
 Print Assumptions C06_infl_only_by_fetch.
+
+(* a Store that fails for a reason other than the parent hash (wrong number, or a state update that
+   does not apply: a copy with a wrong OldRoot passes the sanity checks and is rejected only by
+   Store) changes nothing but the stream context: chain, currReorg, owed / emitted notifications and
+   the mutation log stay as they are; the block is fetched again after the restart *)
+Theorem C06_store_fail_changes_nothing : forall s b s', step s (StoreFail b) = Some s' ->
+  loc s' = loc s /\ cur s' = cur s /\ obox s' = obox s /\ tr s' = tr s /\ log s' = log s /\
+  rv s' = rv s /\ canc s' = true.
+Proof.
+  intros s b s' H. simpl in H.
+  destruct (negb (canc s) && is_idle (rv s) && memb b (pend s)
+            && (negb (extendsb (loc s) b) && negb (mismatchb (loc s) b) || extendsb (loc s) b && negb (stb b)));
+    [|discriminate]. injection H as <-. simpl. repeat split.
+Qed.
+Print Assumptions C06_store_fail_changes_nothing.
+
+Example C06_ex_unstorable_copy :
+  (* served with a wrong OldRoot: verified, cannot be stored, StoreFail, restart, refetch, stored *)
+  run init [SrcExtend; FetchUnstorable 0; Verify (mkB 0 1 0 true false); StoreOk (mkB 0 1 0 true false)] = None /\
+  exists s, run init [SrcExtend; FetchUnstorable 0; Verify (mkB 0 1 0 true false); StoreFail (mkB 0 1 0 true false);
+                      Reset; FetchOk 0; Verify (mkB 0 1 0 true true); StoreOk (mkB 0 1 0 true true); NotifyNewHead] = Some s
+            /\ loc s = src s /\ tr s = [ONewHead (mkB 0 1 0 true true)].
+Proof. split; [vm_compute; reflexivity|]. eexists. vm_compute. auto. Qed.
 
 (* the head moves by one block at a time: forward by StoreOk, backward only by RevertOne *)
 Theorem C06_head_back_only_by_revert : forall s e s', step s e = Some s' ->
@@ -155,7 +179,7 @@ Definition wrapped : state := after synced5 [SrcReorg 5; SrcExtend; Reset].
 Example C06_convergence_refuted_uint64_wrap :
   converged (run_fair 2000 wrapped) = false /\ loc (run_fair 2000 wrapped) = loc wrapped /\
   rv (after wrapped [FetchErr 5; FetchLatest; ReorgCheck 5]) =
-    RRun (W64 - 1) None (EvLatest (mkB 0 6 0 true) true) true.
+    RRun (W64 - 1) None (EvLatest (mkB 0 6 0 true true) true) true.
 Proof. vm_compute. auto. Qed.
 (* ... while one more source block is enough *)
 Example C06_ex_wrap_needs_height_zero :
@@ -170,13 +194,13 @@ Definition live_es : list event :=
   five ++ sched_trace 200 (after init five)
   ++ [SrcReorg 2; SrcExtend; SrcExtend; Reset]
   ++ sched_trace 300 (after synced5 [SrcReorg 2; SrcExtend; SrcExtend; Reset])
-  ++ [FetchErr 5; FetchStaleHead (mkB 4 5 4 true); ReorgCheck 5].
+  ++ [FetchErr 5; FetchStaleHead (mkB 4 5 4 true true); ReorgCheck 5].
 Definition live_s : state := after init live_es.
 Example C06_revert_of_live_block_refuted :
   exists es s s' b, run init es = Some s /\ step s RevertOne = Some s' /\
     loc s = b :: loc s' /\ In b (src s).
 Proof.
-  exists live_es, live_s, (after live_s [RevertOne]), (hd (mkB 0 0 0 false) (loc live_s)).
+  exists live_es, live_s, (after live_s [RevertOne]), (hd (mkB 0 0 0 false true) (loc live_s)).
   vm_compute. repeat split; auto.
 Qed.
 
@@ -278,7 +302,7 @@ Proof.
   split; [unfold XR; vm_compute; exact I|].
   split.
   { unfold NT, strict_prefix. intros [Hi _].
-    assert (F : In (mkB 0 6 0 true) (loc wrapped)) by (apply Hi; vm_compute; auto).
+    assert (F : In (mkB 0 6 0 true true) (loc wrapped)) by (apply Hi; vm_compute; auto).
     vm_compute in F. intuition discriminate. }
   split; [|vm_compute; reflexivity].
   intro H. apply H. split; [vm_compute; reflexivity|]. split; [vm_compute; lia|].
@@ -289,14 +313,14 @@ Qed.
    per-step measure: a verified block of the replaced chain still waiting for storeTask is stored
    first and INCREASES the distance (this is registered finding 2 seen from the model) *)
 Definition stale_pend : state :=
-  after synced5 [SrcExtend; FetchOk 5; Verify (mkB 5 6 5 true); SrcReorg 1; SrcExtend].
+  after synced5 [SrcExtend; FetchOk 5; Verify (mkB 5 6 5 true true); SrcReorg 1; SrcExtend].
 Example C06_measure_needs_fresh :
   reachable stale_pend /\ ~ Fresh stale_pend /\
-  exists s', step stale_pend (StoreOk (mkB 5 6 5 true)) = Some s' /\ (dist stale_pend < dist s')%nat.
+  exists s', step stale_pend (StoreOk (mkB 5 6 5 true true)) = Some s' /\ (dist stale_pend < dist s')%nat.
 Proof.
   split; [apply reach_after, synced5_reachable|].
   split.
-  - intros [_ [H _]]. specialize (H (mkB 5 6 5 true)). vm_compute in H.
+  - intros [_ [H _]]. specialize (H (mkB 5 6 5 true true)). vm_compute in H.
     assert (F : False); [|exact F]. destruct H as [H|[H|[H|[H|[H|[H|[]]]]]]]; auto; discriminate.
   - eexists. split; [vm_compute; reflexivity|vm_compute; lia].
 Qed.
@@ -304,10 +328,10 @@ Qed.
 (* ---------- N fetchers, out-of-order completion ---------- *)
 (* the in-flight set is unordered and unbounded: any number of fetchers may complete in any order,
    verification may run in any order; only storeTask is ordered (by the head) *)
-Definition b0 := mkB 0 1 0 true.
-Definition b1 := mkB 1 2 1 true.
-Definition b2 := mkB 2 3 2 true.
-Definition b3 := mkB 3 4 3 true.
+Definition b0 := mkB 0 1 0 true true.
+Definition b1 := mkB 1 2 1 true true.
+Definition b2 := mkB 2 3 2 true true.
+Definition b3 := mkB 3 4 3 true true.
 Example C06_ex_out_of_order_pipeline :
   (exists s, run init [SrcExtend; SrcExtend; SrcExtend; SrcExtend;
                        FetchOk 3; FetchOk 1; FetchOk 0; FetchOk 2;          (* four fetchers, any completion order *)
